@@ -271,19 +271,7 @@ func (p *Program) verifyFunc(t *target) (vc *VC, rep *FuncReport) {
 	x.evalLets(post, c)
 	var lemmaHyps []string
 	for i, en := range c.Ensures {
-		conj := splitConj(en.Expr)
-		// distribute a top-level implication over the conjuncts of its consequent: A ==> (B && C)
-		if len(conj) == 1 {
-			if e0 := stripParen(conj[0]); e0.Op == "bin" && e0.Name == "==>" {
-				rs := splitConj(e0.Args[1])
-				if len(rs) > 1 {
-					conj = nil
-					for _, r := range rs {
-						conj = append(conj, &SExpr{Op: "bin", Name: "==>", Args: []*SExpr{e0.Args[0], r}})
-					}
-				}
-			}
-		}
+		conj := p.expandConj(en.Expr, 0)
 		for j, cj := range conj {
 			g := post.boolean(cj)
 			name := fmt.Sprintf("post.%d", i+1)
@@ -377,3 +365,74 @@ func (x *Exec) lockEvent(st *State, lockText, op string, call *ast.CallExpr) {
 }
 
 func (x *Exec) onAcquire(st *State, lockText string, write bool) {}
+
+// expandConj splits a clause into independently provable conjuncts: through &&, through the
+// consequent of ==>, and through calls of non-recursive spec functions whose body is a conjunction.
+func (p *Program) expandConj(e *SExpr, depth int) []*SExpr {
+	e = stripParen(e)
+	if depth > 6 {
+		return []*SExpr{e}
+	}
+	switch {
+	case e.Op == "bin" && e.Name == "&&":
+		return append(p.expandConj(e.Args[0], depth), p.expandConj(e.Args[1], depth)...)
+	case e.Op == "bin" && e.Name == "==>":
+		rs := p.expandConj(e.Args[1], depth)
+		if len(rs) == 1 {
+			return []*SExpr{e}
+		}
+		var out []*SExpr
+		for _, r := range rs {
+			out = append(out, &SExpr{Op: "bin", Name: "==>", Args: []*SExpr{e.Args[0], r}})
+		}
+		return out
+	case e.Op == "call" && e.Args[0].Op == "id":
+		sf, ok := p.specs.SpecFuncs[e.Args[0].Name]
+		if !ok || sf.Rec || len(sf.Params) != len(e.Args)-1 {
+			return []*SExpr{e}
+		}
+		body := stripParen(sf.Body)
+		if !(body.Op == "bin" && body.Name == "&&") {
+			return []*SExpr{e}
+		}
+		sub := map[string]*SExpr{}
+		for i, prm := range sf.Params {
+			sub[prm.Name] = &SExpr{Op: "paren", Args: []*SExpr{e.Args[i+1]}}
+		}
+		return p.expandConj(substSExpr(body, sub), depth+1)
+	}
+	return []*SExpr{e}
+}
+
+func substSExpr(e *SExpr, sub map[string]*SExpr) *SExpr {
+	if e == nil {
+		return nil
+	}
+	if e.Op == "id" {
+		if r, ok := sub[e.Name]; ok {
+			return r
+		}
+		return e
+	}
+	n := *e
+	if e.Op == "quant" {
+		// binders shadow
+		inner := map[string]*SExpr{}
+		for k, v := range sub {
+			inner[k] = v
+		}
+		for _, b := range e.Binders {
+			delete(inner, b.Name)
+		}
+		sub = inner
+	}
+	n.Args = make([]*SExpr, len(e.Args))
+	for i, a := range e.Args {
+		if e.Op == "call" && i == 0 {
+			n.Args[i] = a // function name position
+			continue
+		}
+		n.Args[i] = substSExpr(a, sub)
+	}
+	return &n
+}
